@@ -12,6 +12,7 @@ element for unordered sources (only when the body has no other effect).
 from __future__ import annotations
 
 import ast
+import os
 
 import z3
 
@@ -24,6 +25,39 @@ from .values import (freeze, NONE, OutOfSubset, V, VBool, VComp, VDict, VFam, VF
 
 MAX_INLINE_DEPTH = 9
 MAX_PATHS = 400
+
+
+def hard_check(solver, ms):
+    """solver.check() with a *hard* wall-clock limit: z3's own time-out is not honoured inside some preprocessing steps, so
+    the check runs in a forked child that is killed when the limit expires.  Returns 'sat' | 'unsat' | 'unknown'."""
+    import os
+    import select
+    import signal
+    r, w = os.pipe()
+    pid = os.fork()
+    if pid == 0:
+        try:
+            os.close(r)
+            res = solver.check()
+            os.write(w, (b"u" if res == z3.unsat else (b"s" if res == z3.sat else b"?")))
+        finally:
+            os._exit(0)
+    os.close(w)
+    out = "unknown"
+    try:
+        ready, _, _ = select.select([r], [], [], ms / 1000.0 + 0.05)
+        if ready:
+            b = os.read(r, 1)
+            out = {b"u": "unsat", b"s": "sat"}.get(b, "unknown")
+        else:
+            os.kill(pid, signal.SIGKILL)
+    finally:
+        os.close(r)
+        try:
+            os.waitpid(pid, 0)
+        except ChildProcessError:
+            pass
+    return out
 
 
 class PyRaise(Exception):
@@ -100,6 +134,7 @@ class Exec:
         self._pruner = None
         self.npaths = 0
         self._dup = False
+        self._closure_tries: dict = {}
         self.binders: list = []      # iteration constants of the enclosing comprehensions / loop bodies
         from . import libspec
         self.lib = libspec
@@ -156,12 +191,13 @@ class Exec:
             return True
         s = z3.Solver()
         s.set("timeout", 150)
+        s.set("rlimit", 400000)      # z3's time-out is not honoured inside some preprocessing steps; the resource limit is
         fs = list(self.pc) + [cond]
         for a in self.L.relevant_axioms(fs):
             s.add(a)
         for p in fs:
             s.add(p)
-        return s.check() != z3.unsat
+        return hard_check(s, int(os.environ.get("Y0VC_FEAS_MS", "150"))) != "unsat"
 
     def branch(self, cond) -> bool:
         cond = z3.simplify(cond)
@@ -191,18 +227,32 @@ class Exec:
         if L.k is None:
             x, y = L.node("cx"), L.node("cy")
             e = E(x, y)
+            from .logic import symbols_of
+            live = set()
+            for f in self.pc:
+                live |= symbols_of(f)
+            esyms = symbols_of(e)
             for nm, R, C in L.closures:
                 r = R(x, y)
+                # closures created on other explored paths are not part of this path's state; a relation over disjoint
+                # symbols cannot be provably the same
+                rs = symbols_of(r)
+                if nm not in live and not (rs & esyms):
+                    continue
+                if self._closure_tries.get(nm, 0) >= 6:
+                    continue
                 if z3.eq(z3.simplify(r), z3.simplify(e)):
                     return C
                 s = z3.Solver()
                 s.set("timeout", 300)
+                s.set("rlimit", 800000)
                 fs = list(self.pc) + [r != e]
                 for a in L.relevant_axioms(fs):
                     s.add(a)
                 for f in fs:
                     s.add(f)
-                if s.check() == z3.unsat:
+                self._closure_tries[nm] = self._closure_tries.get(nm, 0) + 1
+                if hard_check(s, 250) == "unsat":
                     return C
         return self.lib.closure(self, E, name)
 
@@ -475,8 +525,25 @@ class Exec:
         for name, cond in con.pre(self, a):
             self.emit(f"pre.{name}@{short}#{k}", cond, note=f"in {f.func.qualname if f.func else '?'}")
             self.assume(cond)
+        exact = getattr(con, "raises_exact", True)
         for exc, cond in con.raises(self, a).items():
-            self.require(L.Not(cond), exc, f"{short}#{k}")
+            if exact:
+                self.require(L.Not(cond), exc, f"{short}#{k}")      # raises exactly when cond holds
+            else:
+                # the callee *may* raise exc when cond holds (and never otherwise): nondeterministic choice
+                cond = z3.simplify(cond) if not isinstance(cond, bool) else z3.BoolVal(cond)
+                if z3.is_false(cond):
+                    continue
+                catchable = any(exc_matches(exc, h) for hs in self.try_stack for h in hs) or any(
+                    exc_matches(exc, al) for al in self.allowed_raises)
+                if not catchable:
+                    self.emit(f"raise.{exc}@{short}#{k}", L.Not(cond), note=f"in {f.func.qualname if f.func else '?'}")
+                    self.assume(L.Not(cond))
+                elif self.choose(2) == 1:
+                    if not self.feasible(cond):
+                        raise Infeasible()
+                    self.assume(cond)
+                    raise PyRaise(exc, f"{short}#{k}")
         return self.name_value(con.result(self, a), short)
 
     # ================================================================ statements
